@@ -18,13 +18,18 @@ RULE = ("S->C: TLC enumerates the message-shape case analysis of MsgHash_Gen (ki
         "out_msg_descr hold them (source cell captured position by position from a separate raw decode; in_msg and out_msgs located by "
         "the specification inside the transaction's cell table; SourceBoc parsed by Boc!Parse). A refusal of the library to decode or "
         "re-encode a message the specification reads is a rejected event (keys C16:decode:*, C16:build:*), never an infrastructure "
-        "error. distinct = distinct source cell tables judged.")
+        "error. Every other message is decoded into two Message variables that live across the whole run (Hash asked of the variable "
+        "itself, judged by the cell it holds now); a value is given another message's info/body after a Hash(true) (Norm events). "
+        "Transactions of the blocks are also recorded inside Merkle proofs with the bodies of their messages pruned (cells of "
+        "non-zero level; decoded without a hasher, with one, and a second time by the same caching decoder) and rebuilt around an "
+        "in_msg body of N cells so that the transaction has exactly 255 / 256 / 257 (thorough: also 65535..65537) distinct cells. "
+        "distinct = distinct source cell tables judged.")
 
 NSHARD_GEN = 8
 
 
 def coarse(cl):
-    """input class of a message event, coarse enough to be a stable key: kind[:addr_var][:anycast][:body-is-library-cell]"""
+    """input class of a message event, coarse enough to be a stable key: kind[:addr_var][:anycast][:body-is-library-cell][:var-reused]"""
     parts = (cl or "?").split(":")
     out = [parts[0]]
     if "src=var" in parts or "dest=var" in parts:
@@ -33,6 +38,8 @@ def coarse(cl):
         out.append("anycast")
     if "body-is-library-cell" in parts:
         out.append("body-is-library-cell")
+    if "var-reused" in parts:
+        out.append("var-reused")
     return ":".join(out)
 
 
@@ -42,6 +49,8 @@ def key_of(e, note):
         return "C16:%s:%s" % (note, coarse(e.get("class")))
     if k == "Build":
         return "C16:build:%s" % coarse(e.get("class"))
+    if k == "Norm":
+        return "C16:norm-after-assign:%s" % (e.get("class") or "?").split(":")[0]
     if k == "Decode":
         return "C16:decode:%s" % coarse(e.get("class"))
     if k == "Pair":
@@ -65,7 +74,9 @@ def reexec_of(e):
     """the vector with which `vh replay C16` re-executes a recorded event against the current tree"""
     k = e.get("k")
     if k in ("Msg", "Build", "Decode"):
-        return {"k": "boc", "class": e.get("class", ""), "boc": e["boc"]}
+        return {"k": "boc", "class": e.get("class", ""), "boc": e["boc"], "prev": e.get("prev", "")}
+    if k == "Norm":
+        return None        # re-recorded by a run of the check (needs the pair it rode on)
     if k == "Pair":
         return {"k": "pairboc", "class": e.get("why", ""), "exp": e["exp"], "boc": e["a"]["boc"], "bocb": e["b"]["boc"]}
     if k == "Tx":
@@ -237,10 +248,14 @@ def stats(traces):
                 c[k + (":" + e["src"] if "src" in e else "")] += 1
                 distinct.add(hashlib.md5(json.dumps(e["cells"]).encode()).hexdigest())
                 cells += len(e["cells"])
+                if k == "Tx" and (e["pos"].startswith("proof:") or e["pos"].startswith("rebuilt:")):
+                    c["Tx-" + e["pos"]] += 1
+                if k == "Msg" and e["class"].endswith(":var-reused"):
+                    c["Msg:var-reused"] += 1
                 if k == "Tx" and e.get("full"):
                     c["tx_out_msgs:" + e["src"]] += len(e["om"])
                     c["tx_in_msgs:" + e["src"]] += 1 if e["im"]["p"] else 0
-            elif k in ("Build", "Decode"):
+            elif k in ("Build", "Decode", "Norm"):
                 c[k] += 1
             elif k == "Pair":
                 c["Pair:" + e["exp"]] += 1
@@ -295,6 +310,11 @@ def run(ck):
     ck.extra["blocks_with_transactions"] = blocks
     if not any(k.startswith("Tx:") for k in ds) or not any(k.startswith("MsgAt:") for k in ds):
         raise Infra("no real-block records were judged")
+    if ds["Tx-proof:account_blocks"] < 5 or any(ds["Tx-rebuilt:%d-cells" % n] != 1 for n in (255, 256, 257)):
+        raise Infra("records inside Merkle proofs / rebuilt transactions of 255, 256, 257 cells were not recorded: %s" %
+                    {k: v for k, v in ds.items() if k.startswith("Tx-")})
+    if ds["Msg:var-reused"] < 50 or gs["Msg:var-reused"] < 100 or ds["Norm"] < 50:
+        raise Infra("too few messages decoded into reused variables / assigned after hashing")
     if ds["Pair:equal"] < 20 or ds["Pair:differ"] < 20 or ds["Pair:free"] < 5:
         raise Infra("random pairs do not cover the three relations: %s" % {k: v for k, v in ds.items() if k.startswith("Pair:")})
     if anyc:
@@ -322,23 +342,31 @@ def run(ck):
         c8["om"][-1]["h"] = flip(c8["om"][-1]["h"])
     else:
         c8["nout"] = 1
+    allevs = [e for tp in traces for e in vlib.read_ndjson(tp)]
+    prf = next(e for e in allevs if e["k"] == "Tx" and e.get("proof") and e["im"]["p"])
+    c11 = copy.deepcopy(prf); c11["hc2"] = flip(c11["hc2"])
+    c12 = copy.deepcopy(prf); c12["im"]["hc"] = flip(c12["im"]["hc"])
+    nrm = next(e for e in allevs if e["k"] == "Norm")
+    c13 = copy.deepcopy(nrm); c13["hn"] = flip(c13["hn"])
     bld = next(e for e in evs if e["k"] == "Build" and "library" not in e["class"])
     c9 = copy.deepcopy(bld); c9["dec"] = "e"
     c10 = copy.deepcopy(bld); c10["libcells"][0]["b"] = c10["libcells"][0]["b"][:-1] + ("0" if c10["libcells"][0]["b"][-1] == "1" else "1")
     p = os.path.join(ck.work, "canary.ndjson")
-    vlib.write_ndjson(p, [c1, c2, c3, c4, c5, c6, c7, c8, msg, pair_d, pair_e, tx, c9, c10, bld, {"k": "End"}])
+    vlib.write_ndjson(p, [c1, c2, c3, c4, c5, c6, c7, c8, msg, pair_d, pair_e, tx, c9, c10, bld, c11, c12, c13, prf, nrm, {"k": "End"}])
     st = (ck.states, ck.transitions, ck.traces_ok, ck.evaluations)
     res, rej = ck.validate_events("MsgHash_Trace", "trace/MsgHash_Trace.cfg", p, name="canary")
     ck.states, ck.transitions, ck.traces_ok, ck.evaluations = st
     got = [r["line"] for r in rej]
     cnotes = {t[1]: t[2] for t in res.tuples("NOTE") if not str(t[2]).startswith("anycast-")}
-    intact = not (set(got) & {9, 10, 11, 12, 15})       # the unmodified events must be accepted, or the rejections mean nothing
+    intact = not (set(got) & {9, 10, 11, 12, 15, 19, 20})       # the unmodified events must be accepted, or the rejections mean nothing
     ck.canary("one digit of a reported Hash(false) / cached Hash(true) changed -> rejected (original accepted)", 1 in got and 2 in got and intact)
     ck.canary("pair with different destinations declared 'equal' -> rejected (with and without forged equal hashes)",
               3 in got and 4 in got and cnotes.get(3) == "declared" and intact)
     ck.canary("'equal' pair with one normalised hash changed -> rejected", 5 in got and intact)
     ck.canary("transaction: cached hash digit / SourceBoc digit / out-message hash digit changed -> rejected", 6 in got and 7 in got and 8 in got and intact)
     ck.canary("library's own encoding reported undecodable / differing in one bit from the source cell -> rejected", 13 in got and 14 in got and intact)
+    ck.canary("record inside a Merkle proof: hash at the second cached decode / cached in_msg hash changed; Hash(true) after assignment "
+              "changed -> rejected", 16 in got and 17 in got and 18 in got and intact)
     return ck.finish(rule=RULE, distinct=len(gdistinct | ddistinct))
 
 
